@@ -11,6 +11,7 @@ def unsafe_decode(string):
 def decode(string):
   value = unsafe_decode(string)
   validate_decoded(value)
+  validate_encoded(string)
   return value
 
 def validate_decoded(integer):
